@@ -3,7 +3,7 @@ import copy, random
 from tools import vlib, t3
 
 MODULE = "PropC16"
-THEOREMS = ["C16_code_conforms", "C16_refuses_before_start", "C16_driver_is_checked", "C16_started_are_checked", "C16_unready_refused", "C16_ready_runs", "C16_driver_unchecked_refuted_before_repair", "C16_ready_flag", "C16_dangling_drained", "C16_closure", "C16_runto_exact", "C16_closed_upward", "C16_example", "C16_cone_conforms"]
+THEOREMS = ["C16_code_conforms", "C16_refuses_before_start", "C16_driver_is_checked", "C16_started_are_checked", "C16_unready_refused", "C16_ready_runs", "C16_driver_unchecked_refuted_before_repair", "C16_ready_flag", "C16_dangling_drained", "C16_closure", "C16_runto_exact", "C16_closed_upward", "C16_example", "C16_cone_conforms", "C16_sink_concurrent_progress", "C16_sink_terminates", "C16_sink_nonvacuous", "C16_sink_in_turn_refuted"]
 
 
 def unconnected_case(args):
